@@ -50,21 +50,21 @@ CLAIMED = {
          "Props/C19.v: C19_case1, C19_same_level, C19_finer_level, C19_outside_refused. PlotfileCooker[field](x,y,z) is queried at interior cell centres of every level (stored value within 1e-9), other lattice points and outside points on generated 3D plotfiles with shifted origins and anisotropic dyadic cells, for name / int / list / slice selections; a spy on map_coordinates checks that the box read and the local index are the model's.",
          "scipy map_coordinates (cubic spline) is an oracle: node value at integral coordinates is trusted and checked numerically; float comparisons are modelled on the integer half-cell lattice (exact on dyadic geometry); CASE 2 (between boxes) is outside the model; two defects repaired by fix: commits (origin ignored, slice selections).",
          "DESIGN.md section 3 C19"),
- 'C06': ("Coq proof (what every combine worker writes for one box pair, for any list of pairs in any order and for two files in lock step; contents of a combined box; no output for different meshes) + byte-for-byte directory correspondence in all three modes",
-         "Props/C06.v: C06_pair, C06_any_layout, C06_lock_step, C06_box_contents, C06_refuses. The executable model Writers.Combine.combine_tool (mode choice, per-file tasks, offset re-mapping, lock-step level-header rewrite, global header) is compared byte for byte with the output of combine on generated pairs with identical / permuted / unrelated binary layouts and every selection form; the independent reader decides the property (fields, bit-identical boxes, min/max rows, taste incl. box coordinates); pairs on different meshes must be refused before any write.",
-         "partial proof: mode choice, offset re-mapping and header rewriting are in the executable model and tied to the code by correspondence only; np.allclose on index ranges exact below 1e5 cells; five defects repaired by fix: commits, see KNOWN_FINDINGS.txt.",
+ 'C06': ("Coq proof of the whole tool (refinement: combine_tool (pf_disk pf1) (pf_disk pf2) = pf_disk (combine_spec ...) for every pair of well-formed plotfiles on the same boxes in any two layouts, in whichever mode is picked; level theorems per mode; mode-choice theorems) + three-way directory-image correspondence",
+         "Props/C06.v: C06_tool, C06_level_bybox / _byoffset / _byfile, C06_mode_same_files, C06_mode_byfile, C06_level_header, C06_pair, C06_any_layout, C06_lock_step, C06_box_contents, C06_refuses. The executable model Writers.Combine.combine_tool is compared with the output directory of combine byte for byte / token for token on pairs of generated plotfiles x selections in all layout relations (identical / permuted / unrelated / mixed / escalating), and with the image of the extracted specification combine_pure; different meshes (incl. geometries where physical bounds cannot tell them apart) must be refused before any write; the independent reader decides the property.",
+         "field-selection string parsing is Python's (resolved names enter the model); text model restrictions of C02; float tokens compared by value.",
          "DESIGN.md section 3 C06"),
- 'C11': ("Coq proof (per-file cooking scan on any box list for any recipe function; cooked box = kept components bit for bit followed by the recipe's; recorded min/max are true extrema) + byte-for-byte directory correspondence with the recipe given as a table",
-         "Props/C11.v: C11_scan, C11_box_contents, C11_minmax (recipe is a parameter). Chef(...).cook() is run with generated user recipes (.py files: 1-3 components, arithmetic and position-dependent) x kept-field strings x serial / controlled pool on generated 3D plotfiles with scattered non-monotone layouts; the independent reader checks names (kept then new), kept bit-identical, new = recipe(box) bit for bit, min/max = extrema of the written data, taste with box coordinates; the extracted model (recipe = table of the Python recipe's per-box results) is compared byte for byte.",
-         "partial: mapping of per-file results to box order and header text by correspondence only; Cantera-backed built-in recipes (HRR/ENT/SRi/SDi/RRi) are not exercised by the quick tier and their values are Cantera's (oracle); one defect repaired (field names), see KNOWN_FINDINGS.txt.",
+ 'C11': ("Coq proof (per-file cooking scan on any box list for any recipe function; level theorem: per-file results mapped back to box order for any layout; cooked box = kept components bit for bit followed by the recipe's; recorded min/max are true extrema) + byte-for-byte directory correspondence + Cantera oracle for the built-in recipes",
+         "Props/C11.v: C11_scan, C11_level_any_layout, C11_box_contents, C11_minmax (recipe is a parameter). Chef(...).cook() is run with generated user recipes (.py files: 1-3 components, arithmetic and position-dependent) x kept-field strings x serial / controlled pool, and with the built-in recipes HRR / ENT / SRi / SDi / RRi on Cantera h2o2 plotfiles (species lists, 'all', reactions, kept temp / Y, cells without a state, varying pressures); the output directory is compared byte for byte with the extracted model fed the table of recipe results, and parsed by the independent reader (names, kept bit-identical, new = recipe(box), min/max, taste).",
+         "partial: header text by correspondence only; the values of the built-in recipes are Cantera's (independent SolutionArray evaluation, 1e-9 relative), not modelled.",
          "DESIGN.md section 3 C11"),
  'C17': ("Coq proof (ghost stripping keeps exactly the interior cells for every ghost width; recorded min/max are true extrema) + byte-for-byte correspondence of the converted level directories + independent reader / taste with box coordinates",
          "Props/C17.v: C17_interior, C17_minmax. The executable model Writers.Chk2plt.convert_level (state-file scan, ghost stripping, flooring table, gradp / I_R at recorded offsets, offset-sorted tasks mapped back to box order) is compared byte for byte with chk2plt's output on synthetic checkpoints (1-3 levels, 1-3 ghost cells, anisotropic shifted domains, independent layouts per data subset, all flag combinations, species from list or reference plotfile); the independent reader checks fields, levels, boxes, time, geometry, interior values, rescaled mass fractions, min/max; taste with box coordinates; the checkpoint tree is hashed before and after.",
          "partial: the checkpoint Header parse, dx = domain / grid, box bounds and the text writers are checked at property level only (not modelled); flooring division is numpy's (table); two defects repaired by fix: commits, see KNOWN_FINDINGS.txt.",
          "DESIGN.md section 3 C17"),
  'C14': ("Coq proof (induction lifting per-operation preservation/refinement to every finite pipeline and every intermediate state; strain-all identity; cook-then-combine identity on box contents) + hop-by-hop correspondence of the composed extracted models with the real tool chain",
-         "Props/C14.v: C14_pipeline, C14_colander_chain (hypotheses discharged for every sequence of colander runs: succeeds, equals the composed specifications, every intermediate directory is a good plotfile), C14_colander_outputs_accepted (taste accepts them), C14_strain_all_identity, C14_cook_combine. Pipelines over {colander, chef, combine with sibling, combine with ancestor} (all sequences of length <= 2 over the kinds, sampled up to 4) are run on generated plotfiles; after every hop the output is parsed by the independent reader and compared with the composed pure numpy operations, validated by taste (with and without box coordinates), and compared byte for byte with the composition of the extracted Writers.* models.",
-         "the per-operation hypotheses of C14_pipeline are proved at tool level for colander; for chef and combine only for the binary cores (C06/C11), otherwise established by correspondence; chk2plt as a source is covered by C17.",
+         "Props/C14.v: C14_pipeline, C14_colander_chain and C14_strain_combine_chain (hypotheses discharged for every sequence of colander and combine runs: succeeds, equals the composed specifications, every intermediate directory is a good plotfile), C14_outputs_accepted (taste accepts them), C14_strain_all_identity, C14_cook_combine. Pipelines over {colander, chef, combine with sibling, combine with ancestor} (all sequences of length <= 2 over the kinds, sampled up to 4) are run on generated plotfiles; after every hop the output is parsed by the independent reader and compared with the composed pure numpy operations, validated by taste (with and without box coordinates), and compared byte for byte with the composition of the extracted Writers.* models.",
+         "the per-operation hypotheses of C14_pipeline are proved at tool level for colander and combine; for chef only for the binary core and level mapping (C11), otherwise established by correspondence; chk2plt as a source is covered by C17.",
          "DESIGN.md section 3 C14"),
  'C12': ("Coq proof (ordered map/imap pairing is independent of the execution order; file-system confluence of tasks touching disjoint files for every execution order; order-free keyed painting) + exhaustive task-order runs of every tool under a controlled pool with audited task file sets",
          "Props/C12.v: C12_ordered_pairing, C12_unordered_needs_keys, C12_fs_confluence, C12_painting_order_free. 13 tool scenarios (reader selections / iteration, taste, colander, combine x3 modes, chef, mandoline 2D / 3D, pestle, whip, chk2plt) are run under the submission order and 27 other task orders (all 24 orders of every pool call with <= 4 tasks, reverse, random), and in serial mode where it exists; returned values and the sha256 of every output file must equal the baseline; every task's open() calls are audited and the independence hypothesis of the confluence theorem is checked on every pool call; thorough tier adds real process pools with 1, 2, 16 workers.",
